@@ -41,10 +41,26 @@ def line_decoder(instrumented):
     return _LD[instrumented]
 
 
+_JSON_FALSY = ["0", "{}", "[]", '""', "false", "null", "0.0", "-0"]
+
+
+class JVal(tuple):
+    """What json.loads returns in the harness: ("json", <text handed to json.loads>), truthy exactly when the JSON value
+    would be (so a helper that filters records by truthiness instead of blankness is observable)."""
+
+    def __bool__(self):
+        t = self[1]
+        t = t.strip() if hasattr(t, "strip") else t
+        for lit in _JSON_FALSY:
+            if len(t) == len(lit) and bool(t == lit):
+                return False
+        return True
+
+
 class _FakeJson:
     @staticmethod
     def loads(s):
-        return ("json", s)
+        return JVal(("json", s))
 
 
 def helpers(instrumented):
@@ -131,7 +147,12 @@ TEMPLATES = {
     "event_id": ["event:", "P1", "S1", "id:", "P1", "S1", "data:", "P1", "S2"],
     "comment": [":", "P1", "S1", "data:", "P1", "S2", "data:", "P1"],
     "two_events": ["data:", "P1", "S2", "data:", "P1", "S1"],
+    # two events separated by up to four terminator characters (covers LF LF, CRLF CRLF, CR CR, mixed) and a following event
+    "two_events_sep4": ["data:", "P1", "S4", "data:x", "S2"],
+    # the same with pure terminator characters (T = LF or CR) and fixed payloads: cheap enough for the quick tier
+    "two_events_term4": ["data:x", "T4", "data:x", "T2"],
 }
+TERM = ranges_of_pts([10, 13])
 
 
 class Chunking(Obligation):
@@ -154,9 +175,9 @@ class Chunking(Obligation):
         parts = []
         k = 0
         for p in TEMPLATES[self.shape]:
-            if p[0] in "PS" and p[1:].isdigit():
+            if p[0] in "PST" and p[1:].isdigit():
                 k += 1
-                parts.append(mk_sym_str(int(p[1:]), "p%d" % k, PAY if p[0] == "P" else SEP))
+                parts.append(mk_sym_str(int(p[1:]), "p%d" % k, {"P": PAY, "S": SEP, "T": TERM}[p[0]]))
             else:
                 parts.append(p)
         t = parts[0]
@@ -250,6 +271,8 @@ CANON = {
     "meta": ["event:", "P1", "\n", "id:", "P1", "\n", ":", "P1", "\n", "data:", "P1", "\n\n"],
     "unterminated": ["data:", "P1", "\n\n", "data:", "P1"],
     "empty_data": ["data:", "\n\n", "data:", "P1", "\n\n"],
+    # a payload that ends in a newline: the last data line(s) are empty
+    "trailing_empty_data": ["data:", "P1", "\n", "data:", "\n\n", "data:", "\n", "data:", "\n\n"],
 }
 CPAY = ranges_of_pts([ord(c) for c in " xé:\u2028{"])  # payload characters of canonical streams (no CR/LF)
 
@@ -311,6 +334,71 @@ class Reference(Obligation):
         return "canonical stream %r split at %r -> %r, reference %r" % (inp["text"], inp["points"], r, reference_events(inp["text"]))
 
 
+NDPAY = ranges_of_pts([ord(c) for c in "0 x{}1"])
+ND_CANON = {"three_records": ["P1", "\n", "P2", "\n", "P1", "\n"], "unterminated_last": ["P2", "\n", "P1"]}
+
+
+class NdReference(Obligation):
+    """Canonical NDJSON (records separated by LF): every non-blank line is delivered exactly once, in order, as the text
+    handed to json.loads, whatever JSON value it denotes (0, {}, [] included)."""
+
+    functions = ["pyopenapi_gen.core.streaming_helpers:iter_ndjson"]
+    alphabet = NDPAY
+
+    def __init__(self, shape, max_splits):
+        self.shape, self.max_splits = shape, max_splits
+        self.name = "reference/ndjson/%s/splits<=%d" % (shape, max_splits)
+        self.bounds = {"text": "canonical NDJSON template %s, record characters over '0 x{}1'" % shape, "split_points": "<=%d" % max_splits}
+
+    def make_inputs(self, e):
+        parts = []
+        k = 0
+        for p in ND_CANON[self.shape]:
+            if p[0] == "P" and p[1:].isdigit():
+                k += 1
+                parts.append(mk_sym_str(int(p[1:]), "p%d" % k, NDPAY))
+            else:
+                parts.append(p)
+        t = parts[0]
+        for p in parts[1:]:
+            t = t + p
+        t = SymStr.lift(t)
+        n = len(t)
+        pts = []
+        kk = e.choose(self.max_splits + 1)
+        last = 0
+        for _ in range(kk):
+            if last + 1 >= n:
+                break
+            p = last + 1 + e.choose(n - 1 - last)
+            pts.append(p)
+            last = p
+        return {"text": t, "points": pts}
+
+    def run_sym(self, inp):
+        return explore.call_catching(run_helper, True, "ndjson", split_at(inp["text"], inp["points"]))
+
+    def run_real(self, inp):
+        return explore.call_catching(run_helper, False, "ndjson", split_at(inp["text"], inp["points"]))
+
+    def prop(self, inp, r):
+        if isinstance(r, explore.Raised):
+            return False
+        want = []
+        for ln in inp["text"].split("\n"):
+            st = ln.strip()
+            if len(st):
+                want.append(st)
+        return seq_eq(list(r), want)
+
+    def describe_violation(self, inp, r):
+        return "canonical NDJSON %r split at %r -> records %r" % (inp["text"], inp["points"], r)
+
+
+def mk_ndref(shape, ms):
+    return NdReference(shape, ms)
+
+
 def mk_chunk(which, shape, n, ms):
     return Chunking(which, shape, n, ms)
 
@@ -328,8 +416,11 @@ def specs(tier):
         out.append((MOD, "mk_chunk", ("sse_text", "free", 3, 99)))
         for shape in ("one_data", "two_data"):
             out.append((MOD, "mk_chunk", ("sse", shape, 0, 1)))
-        for shape in ("one_event", "two_lines", "unterminated"):
+        out.append((MOD, "mk_chunk", ("sse_text", "two_events_term4", 0, 1)))
+        out.append((MOD, "mk_chunk", ("sse", "two_events_term4", 0, 1)))
+        for shape in ("one_event", "two_lines", "unterminated", "trailing_empty_data"):
             out.append((MOD, "mk_ref", (shape, 1)))
+        out.append((MOD, "mk_ndref", ("three_records", 1)))
     else:
         for which in ("sse", "ndjson", "sse_text"):
             for n in (1, 2, 3, 4, 5):
@@ -340,6 +431,8 @@ def specs(tier):
             out.append((MOD, "mk_chunk", ("sse_text", shape, 0, 1)))
         for shape in CANON:
             out.append((MOD, "mk_ref", (shape, 2)))
+        for shape in ND_CANON:
+            out.append((MOD, "mk_ndref", (shape, 2)))
     return out
 
 
@@ -368,6 +461,8 @@ def replay(path):
     parts = name.split("/")
     if parts[0] == "chunking":
         ob = Chunking(parts[1], parts[2], 0, 99)
+    elif parts[1] == "ndjson":
+        ob = NdReference(parts[2], 2)
     else:
         ob = Reference(parts[2], 2)
     r = ob.run_real(v["inputs"])
